@@ -260,6 +260,14 @@ fn simulate_de(g: &dyn Fn(f64) -> C64, tol: f64) -> Result<(usize, C64), &'stati
 
 /// textbook adaptive Simpson with the same 10 tol panel rule: (value, evaluations)
 fn reference_simpson(g: &dyn Fn(f64) -> C64, l: f64, r: f64, tol: f64) -> (C64, usize) {
+    let (a, e, _, _) = reference_simpson_levels(g, l, r, tol);
+    (a, e)
+}
+
+/// ... also the deepest level at which a panel was accepted and the smallest relative distance of any panel decision
+/// from its threshold
+fn reference_simpson_levels(g: &dyn Fn(f64) -> C64, l: f64, r: f64, tol: f64) -> (C64, usize, usize, f64) {
+    let (mut deepest, mut gap) = (1usize, f64::INFINITY);
     let h = 0.5 * (r - l);
     let (fa, fc, fb) = (g(l), g(l + h), g(r));
     let mut evals = 3usize;
@@ -272,7 +280,10 @@ fn reference_simpson(g: &dyn Fn(f64) -> C64, l: f64, r: f64, tol: f64) -> (C64, 
         evals += 2;
         let s1 = (fa + fd * 4.0 + fc) * (h / 6.0);
         let s2 = (fc + fe * 4.0 + fb) * (h / 6.0);
-        if (s1 + s2 - s).norm() < t || lev >= 60 {
+        let dn = (s1 + s2 - s).norm();
+        gap = gap.min(((dn - t) / t).abs());
+        if dn < t || lev >= 60 {
+            deepest = deepest.max(lev);
             area += s1 + s2;
         } else {
             stack.push((a + h, 0.5 * h, fc, fe, fb, s2, 0.5 * t, lev + 1));
@@ -282,7 +293,7 @@ fn reference_simpson(g: &dyn Fn(f64) -> C64, l: f64, r: f64, tol: f64) -> (C64, 
             break;
         }
     }
-    (area, evals)
+    (area, evals, deepest, gap)
 }
 
 const SIMPSON_DEPTH: usize = 60;
@@ -304,12 +315,16 @@ impl<'a> Counted<'a> {
 }
 
 fn run_simpson(job: &Job, tol: f64) -> (Result<Result<C64, String>, Caught>, usize) {
+    run_simpson_depth(job, tol, SIMPSON_DEPTH)
+}
+
+fn run_simpson_depth(job: &Job, tol: f64, depth: usize) -> (Result<Result<C64, String>, Caught>, usize) {
     let cnt = Counted { f: &job.f, calls: Cell::new(0) };
     let (l, r) = (job.l, job.l + job.len);
     let res = if job.f.complex {
-        guard(|| bi::integrate_simpson::<C64, _>(l, r, |x| cnt.call(x), tol, SIMPSON_DEPTH))
+        guard(|| bi::integrate_simpson::<C64, _>(l, r, |x| cnt.call(x), tol, depth))
     } else {
-        guard(|| bi::integrate_simpson::<f64, _>(l, r, |x| cnt.call(x).re, tol, SIMPSON_DEPTH).map(|v| c(v, 0.0)))
+        guard(|| bi::integrate_simpson::<f64, _>(l, r, |x| cnt.call(x).re, tol, depth).map(|v| c(v, 0.0)))
     };
     (res, cnt.calls.get())
 }
@@ -402,6 +417,31 @@ fn run_interval(routine: u8, job: &Job, mut o: Obs) -> Outcome {
             }
             o.set("ratio_work", calls as f64 / (8 * ref_calls + 32) as f64);
             if hard {
+                // the depth cap: with every panel decision of the textbook recursion clear of its threshold, a cap equal to
+                // the deepest accepted level must still give Ok, and a cap one level short must give Err - or an Ok that
+                // meets the bound (never a quietly relaxed result)
+                let (_, _, deepest, gap) = reference_simpson_levels(&ge, l, r, tol);
+                if gap > 1e-6 && deepest < SIMPSON_DEPTH {
+                    o.label("simpson-depth-cap");
+                    let (at, _) = run_simpson_depth(job, tol, deepest);
+                    match at {
+                        Ok(Ok(v)) if (v - exact).norm() <= tol + floor => {}
+                        Ok(Ok(v)) => return o.fail(format!("integrate_simpson with n_max = {deepest} (the deepest level the recursion needs) returned {v}, {:e} from the exact integral (allowed {:e})", (v - exact).norm(), tol + floor)),
+                        Ok(Err(e)) => return o.fail(format!("integrate_simpson with n_max = {deepest}, the deepest level the textbook recursion accepts a panel at, returned Err({e})")),
+                        Err(c) => return o.fail(format!("{c:?}")),
+                    }
+                    if deepest >= 2 {
+                        let (short, _) = run_simpson_depth(job, tol, deepest - 1);
+                        match short {
+                            Ok(Err(_)) => {
+                                o.label("simpson-depth-cap-err");
+                            }
+                            Ok(Ok(v)) if (v - exact).norm() <= tol + floor => {}
+                            Ok(Ok(v)) => return o.fail(format!("integrate_simpson with n_max = {} (one level short of what the tolerance needs) returned Ok({v}), {:e} from the exact integral (allowed {:e})", deepest - 1, (v - exact).norm(), tol + floor)),
+                            Err(c) => return o.fail(format!("{c:?}")),
+                        }
+                    }
+                }
                 // degree <= 5: the accepted-panel error is exactly |S2-S1|/15 < (2/3) tol_i, summing to < tol
                 judge(o, res, exact, tol + floor, "integrate_simpson_hard")
             } else {
@@ -745,7 +785,7 @@ pub fn run(opts: &Opts) -> i32 {
         ("complex", 0.1),
     ];
     spec.max_discard_frac = 0.2;
-    spec.rule = "generated: integrands P_d(x)+A e^{ax}+B sin(bx+phi) (d<=6, |a|<=1.5, |b|<=2; complex variant + i Q(x) + C e^{i b x}; coefficients in [-1,1], amplitudes in [-2,2], all optionally times a common magnitude 10^[-3,1]) on intervals of length 0.05..4 anywhere in [-5,5], tolerance log-uniform from max(1e-11, 1e4 eps (b-a) sum|terms|) to 1e-3 for tanh-sinh / Gauss-Legendre / adaptive Simpson; weighted rules on sum u_k x^k/sqrt(mu0 m_2k) + C cos(bx) (degree <= 12 Hermite, 19 Laguerre, 30 Chebyshev; |b|<=1, 0.5 for Laguerre) against exact moments and closed forms, amplitudes optionally times 10^[-3,3] (integrals far from unit size under an absolute tolerance); Romberg n=1..10 on polynomials of degree <= 2n-1 (a quarter of them multiples of (x-a)(x-b)(x-(a+b)/2): zero on the three coarsest nodes); batches of 20/40 Simpson integrals for the work bound; invalid class (reversed/empty interval, negative tolerance) for all eight routines. A case is admitted only if the harness's simulation of the documented stopping rule on independently computed nodes decides every step with a factor-1.5 margin and is itself within tol/2 of the closed-form integral; non-admitted cases are counted as discards (< 20%). Oracle: Ok required; |v-I| <= 2 tol + 64 eps (b-a) sum|terms| (tanh-sinh below 1e-8: 4 sqrt(tol); Simpson: tol on polynomials of degree <= 5 (no accuracy claim on the smooth family), evaluation count <= 8x reference + 32 per case and <= 2x per batch; Romberg: 2048 eps (b-a) sum|c_k||x|^k). Non-trivial = non-polynomial, degree >= 4, complex or interval not containing 0; weighted: non-polynomial or >= 5 coefficients or complex; batches; invalid. Distinct = distinct case JSON.".into();
+    spec.rule = "generated: integrands P_d(x)+A e^{ax}+B sin(bx+phi) (d<=6, |a|<=1.5, |b|<=2; complex variant + i Q(x) + C e^{i b x}; coefficients in [-1,1], amplitudes in [-2,2], all optionally times a common magnitude 10^[-3,1]) on intervals of length 0.05..4 anywhere in [-5,5], tolerance log-uniform from max(1e-11, 1e4 eps (b-a) sum|terms|) to 1e-3 for tanh-sinh / Gauss-Legendre / adaptive Simpson; weighted rules on sum u_k x^k/sqrt(mu0 m_2k) + C cos(bx) (degree <= 12 Hermite, 19 Laguerre, 30 Chebyshev; |b|<=1, 0.5 for Laguerre) against exact moments and closed forms, amplitudes optionally times 10^[-3,3] (integrals far from unit size under an absolute tolerance); Romberg n=1..10 on polynomials of degree <= 2n-1 (a quarter of them multiples of (x-a)(x-b)(x-(a+b)/2): zero on the three coarsest nodes); batches of 20/40 Simpson integrals for the work bound; invalid class (reversed/empty interval, negative tolerance) for all eight routines. A case is admitted only if the harness's simulation of the documented stopping rule on independently computed nodes decides every step with a factor-1.5 margin and is itself within tol/2 of the closed-form integral; non-admitted cases are counted as discards (< 20%). Oracle: Ok required; |v-I| <= 2 tol + 64 eps (b-a) sum|terms| (tanh-sinh below 1e-8: 4 sqrt(tol); Simpson: tol on polynomials of degree <= 5 (no accuracy claim on the smooth family) - also with the depth cap equal to the deepest level the textbook recursion needs (Ok required) and one level short (Err, or an Ok within the bound), evaluation count <= 8x reference + 32 per case and <= 2x per batch; Romberg: 2048 eps (b-a) sum|c_k||x|^k). Non-trivial = non-polynomial, degree >= 4, complex or interval not containing 0; weighted: non-polynomial or >= 5 coefficients or complex; batches; invalid. Distinct = distinct case JSON.".into();
     spec.assumptions = vec!["closed-form integrals evaluated by Taylor shift / expm1 / product formulas (error << floor)".into(), "independent Gauss rules by Golub-Welsch (refs::quad), validated against the tables by C10".into()];
     spec.max_shrink_iters = 1500;
     run_spec(spec, opts)
